@@ -312,7 +312,9 @@ theorem safe_insertAliases (ids : List QId) (aliases : List String) : Safe (Db.i
   by_cases h : ids.length ≠ aliases.length
   · rw [if_pos h]; exact Fwd.refl hi
   · rw [if_neg h]
-    exact Safe.bind (safe_insertAliasesLoop _) (fun n => Safe.pure _) s hi
+    split
+    · exact Fwd.refl hi
+    · exact Safe.bind (safe_insertAliasesLoop _) (fun n => Safe.pure _) s hi
 
 /-! insert values -/
 
@@ -354,6 +356,8 @@ theorem safe_insertValuesLoop : ∀ (l : List (QId × List KV)), (∀ p ∈ l, (
 theorem safe_insertValues (ids : List QId) (values : QValues) (hd : values.distinct) : Safe (Db.insertValues ids values) := by
   intro s hi
   unfold Db.insertValues
+  split
+  · exact Fwd.refl hi
   cases values with
   | single v =>
     simp only
@@ -549,6 +553,8 @@ theorem safe_insertNodes (count : Nat) (values : QValues) (aliases : List String
     (hd : values.distinct) : Safe (Db.insertNodes count values aliases ids) := by
   intro s hi
   unfold Db.insertNodes Db.insertNodesGen
+  split
+  · exact Fwd.refl hi
   cases hq : s.dbIds ids with
   | error e => exact Fwd.refl hi
   | ok qids =>
